@@ -680,9 +680,10 @@ func Input(l *InputSharedVars, g *GlobalVarsMain, hPath *HFilePath, driConfig *C
 						}
 					}
 
-					for i := 1; i <= NRTIL; i++ {
-						if g.EINTE[i+1] == g.EINTE[i] {
-							g.EINTE[i+1] = g.EINTE[i+1] + 1
+					// events on the same day are carried out on consecutive days: keep the dates strictly increasing
+					for i := 2; i <= NRTIL; i++ {
+						if g.EINTE[i] <= g.EINTE[i-1] {
+							g.EINTE[i] = g.EINTE[i-1] + 1
 						}
 					}
 				}
@@ -712,10 +713,10 @@ func Input(l *InputSharedVars, g *GlobalVarsMain, hPath *HFilePath, driConfig *C
 						}
 
 					}
-					for i := 1; i <= NDu; i++ {
-						index := i - 1
-						if g.ZTDG[index+1] == g.ZTDG[index] {
-							g.ZTDG[index+1] = g.ZTDG[index+1] + 1
+					// events on the same day are carried out on consecutive days: keep the dates strictly increasing
+					for i := 1; i < NDu; i++ {
+						if g.ZTDG[i] <= g.ZTDG[i-1] {
+							g.ZTDG[i] = g.ZTDG[i-1] + 1
 						}
 					}
 					for i := 1; i < NDu; i++ {
